@@ -7,7 +7,7 @@
 From Coq Require Import List PArith ZArith Bool String FMapPositive.
 From SV Require Import SM.Store SM.StoreProofs SM.StoreCert SM.StoreCertProofs SM.StoreCopy SM.StoreCopyProofs
   SM.StoreExamples SM.KvAdd SM.KvAddProofs SM.StoreCopySrc SM.StoreCopySrcProofs SM.KvAddFresh SM.KvAddFreshProofs
-  SM.StoreCopyExport SM.StoreCopyExportProofs SM.StoreCopyFlow SM.StoreCopyFlowProofs SM.StoreCopyWholeProofs SM.StoreRowCert SM.StoreRowCertProofs SM.StoreExportCert SM.StoreExportCertProofs SM.StoreTypedLabels SM.StoreTypedLabelsProofs SM.StoreCondRow SM.StoreCondRowProofs SM.StorePickleState SM.StorePickleStateProofs SM.OpPurity SM.OpPurityProofs SM.CollapseCensus SM.CollapseCensusProofs
+  SM.StoreCopyExport SM.StoreCopyExportProofs SM.StoreCopyFlow SM.StoreCopyFlowProofs SM.StoreCopyWholeProofs SM.StoreRowCert SM.StoreRowCertProofs SM.StoreExportCert SM.StoreExportCertProofs SM.StoreTypedLabels SM.StoreTypedLabelsProofs SM.StoreCondRow SM.StoreCondRowProofs SM.StorePickleState SM.StorePickleStateProofs SM.StorePickleShort SM.StorePickleShortProofs SM.OpPurity SM.OpPurityProofs SM.CollapseCensus SM.CollapseCensusProofs SM.InstanceFromEntity
   Gen.CopyCensus_gen Gen.CopyExportReads_gen Gen.C09OpCensus_gen Gen.C09Collapse_gen.
 Import ListNotations.
 
@@ -658,3 +658,138 @@ Theorem c09_pickle_state_swap_refuted :
   alookup "inst_out"%string (setstate ["inst_in"%string; "inst_out"%string; "delay"%string] (getstate ps_obj ps_fields)) = Some (Some 2%Z) /\
   state_ok ps_fields ["inst_out"%string; "delay"%string] ["inst_out"%string; "delay"%string] = false.
 Proof. exact state_swap_refuted. Qed.
+
+(** ROUND 5 — THE SHORT FORM OF THE PICKLING PAIR.  [Output.__getstate__] leaves the optional fields out of the state when
+    the "take the long form" test fails, [__setstate__] then restores constants.  [output_short_rows] (generated): per
+    optional field its type, its own disjuncts of that test and the constant restored.  Instance obligation
+    [pickle_short_form_restores_export_equal:Output] = [short_ok output_short_rows && short_rows_cover output_state_tail
+    output_short_rows]: then for EVERY value of the field's type on which all of the field's disjuncts fail — in particular
+    for every original that takes the short form — the restored constant exports like the value. *)
+Theorem c09_pickle_short_form_export_equal : forall rows, short_ok rows = true ->
+  forall f ty ts d, In (f, ty, ts, d) rows ->
+  forall v, has_type ty v = true -> all_fail ts v = true -> export_equiv ty v (default_val d) = true.
+Proof. exact short_ok_sound. Qed.
+
+Theorem c09_pickle_short_default_typed : forall rows, short_ok rows = true ->
+  forall f ty ts d, In (f, ty, ts, d) rows -> has_type ty (default_val d) = true.
+Proof. exact short_ok_default_typed. Qed.
+
+(** The defect repaired in round 4 as a refuted shape: a float steered by truthiness (or by `!= 0`) and restored as 0.0 is
+    rejected — the value -0.0 takes the short form and exports "-0", the restored 0.0 exports "0"; the repaired test on
+    the exported text is accepted. *)
+Theorem c09_pickle_short_truthy_float_refuted :
+  row_ok ("delay"%string, TyFloat, [TTruthy], DFloatZero) = false /\
+  has_type TyFloat VFloatNegZero = true /\ all_fail [TTruthy] VFloatNegZero = true /\
+  export_equiv TyFloat VFloatNegZero (default_val DFloatZero) = false.
+Proof. exact short_truthy_float_refuted. Qed.
+
+Theorem c09_pickle_short_neq_zero_float_refuted : row_ok ("delay"%string, TyFloat, [TNeqZeroNum], DFloatZero) = false.
+Proof. exact short_neq_zero_float_refuted. Qed.
+
+(** Not vacuous: today's rows are accepted; an optional int that no disjunct reads, a test against another constant than
+    the one restored, a str restored as None are rejected. *)
+Theorem c09_pickle_short_not_vacuous :
+  row_ok ("delay"%string, TyFloat, [TFmtNotZero], DFloatZero) = true /\
+  row_ok ("times"%string, TyInt, [], DIntC (-1)) = false /\ row_ok ("times"%string, TyInt, [TNeqInt 1], DIntC (-1)) = false /\
+  row_ok ("times"%string, TyInt, [TNeqInt (-1)], DIntC (-1)) = true /\
+  row_ok ("inst_in"%string, TyOptStr, [TTruthy], DNone) = true /\
+  row_ok ("params"%string, TyStr, [TTruthy], DNone) = false /\
+  row_ok ("inst_in"%string, TyOptStr, [], DNone) = false.
+Proof.
+  split; [exact short_fmt_float_accepted|].
+  destruct short_untested_int_refuted as (A & B & C). destruct short_optstr_accepted_and_str_refuted as (D & _ & E & _ & F).
+  repeat split; assumption.
+Qed.
+
+(** ROUND 5 — [Instance.from_entity].  [instance_from_entity] (generated from instancing.py): the origin of every value the
+    Instance is built from.  Instance obligation [instance_from_entity_shares_only_outputs]: the only objects of the
+    func_instance entity that reach the Instance are its Outputs (read-only there: census of collapse_one), and the $fixup
+    values are copies ([EntityFixup.copy_values], itself a census label). *)
+Theorem c09_from_entity_shares_only : forall allowed rows, from_entity_shares_only allowed rows = true ->
+  forall f o, In (f, o) rows -> origin_shared o = true -> In f allowed.
+Proof. exact from_entity_shares_only_spec. Qed.
+
+Theorem c09_from_entity_copies : forall f rows, from_entity_copies f rows = true ->
+  (exists o, In (f, o) rows) /\ forall o, In (f, o) rows -> o = CCopy.
+Proof. exact from_entity_copies_spec. Qed.
+
+Theorem c09_from_entity_shared_fixup_refuted :
+  from_entity_shares_only ["outputs"%string] [("outputs"%string, CTemplate); ("fixup"%string, CTemplate)] = false /\
+  from_entity_copies "fixup"%string [("outputs"%string, CTemplate); ("fixup"%string, CTemplate)] = false /\
+  from_entity_shares_only ["outputs"%string] [("outputs"%string, CTemplate); ("fixup"%string, CCopy)] = true /\
+  from_entity_copies "fixup"%string [("outputs"%string, CTemplate); ("fixup"%string, CCopy)] = true.
+Proof. exact from_entity_shared_fixup_rejected. Qed.
+
+(** ROUND 5 — THE WHOLE PROPERTY FROM GENERATED OBJECTS ONLY.  Every hypothesis above the line is a boolean over objects the
+    translators regenerate from vmf.py / keyvalues.py / math.py / instancing.py on every run, and is discharged by a named
+    instance obligation of the check ([all_classes_complete_and_independent] = the first three, [all_flows_present],
+    [conditional_rows_are_joins], [pickle_state_positions_match:Output], [pickle_short_form_restores_export_equal:Output],
+    [ops_store_nothing_to_operands:*], [kv_add_appends_to_copy_and_returns_it], [kv_added_items_are_copied],
+    [collapse_never_writes_template], [collapse_only_copies_enter_target]).  What remains SEMANTIC is visible inside the
+    conjuncts: the heap relations of a census row ([kinds_rel], [fields_rel_src], [fields_rel_c] — decided in the kernel on
+    heaps of real copies by the two row certificates), "the trace of a run only contains origins the census lists" for
+    operators and collapse_one ([trun] / [crun] premises — compared with run-time traces by the correspondences), and the
+    abstraction of field values to the classes of StorePickleShort.v. *)
+Theorem c09_property :
+  all_fresh = true -> all_sources_match = true -> all_export_ok = true -> all_args_lossless = true ->
+  cond_rows_ok all_census cond_rows = true ->
+  state_ok (names census_Output) output_state_put output_state_get = true ->
+  short_ok output_short_rows = true ->
+  ops_store_nothing_to_operands op_census_all = true ->
+  recv_is_copy kv_add_recv_single && recv_is_copy kv_add_recv_iter && recv_is_copy kv_add_ret = true ->
+  kv_add_single_copied && kv_add_iter_copied = true ->
+  collapse_never_writes_template collapse_writes = true -> collapse_only_copies_enter collapse_enters = true ->
+  (* 1. every copy method of the table: complete (observed equal under the export masks) and independent both ways *)
+  (forall label c, In (label, c) all_census ->
+   exists s cls reads, lookup label all_sources = Some s /\ lookup label class_of_label = Some cls /\
+    lookup cls all_export_reads = Some reads /\
+    forall (mk : loc -> list bool) h h' la lc nd nd',
+      closed h -> closed h' -> extends h h' -> h la = Some nd -> h lc = None -> h' lc = Some nd' ->
+      nmut nd' = nmut nd -> mk la = obs_mask c reads -> mk lc = obs_mask c reads ->
+      List.length (nfields nd) = List.length c ->
+      kinds_rel h c (nfields nd) ->
+      fields_rel_src h h' (nfields nd) (resolve c s) (nfields nd') ->
+      fields_rel_c mk h h' (nfields nd) (eresolve c s reads) (nfields nd') ->
+      mobs_eq mk h h' (VRef la) (VRef lc) /\
+      (forall ms h'' R, steps (h', [lc]) ms (h'', R) -> forall n, munfold mk n h'' (VRef la) = munfold mk n h (VRef la)) /\
+      (forall ms h'' R, steps (h', [la]) ms (h'', R) -> forall n, munfold mk n h'' (VRef lc) = munfold mk n h (VRef la))) /\
+  (* 2. a conditional row (a conditional of copy() or of an attrs converter) is fresh whichever branch an input takes *)
+  (forall lab f a b, In (lab, f, a, b) cond_rows ->
+   exists c k, clookup lab all_census = Some c /\ In (f, k, how_join a b) c /\
+               (field_fresh k (how_join a b) = true -> forall t : bool, field_fresh k (if t then a else b) = true)) /\
+  (* 3. copy.copy / copy.deepcopy / pickle of an Output: every data field comes back with its own value (long state) *)
+  (forall obj f, In f (names census_Output) ->
+   alookup f (setstate output_state_get (getstate obj output_state_put)) = Some (alookup f obj)) /\
+  (* 4. ... and an original that takes the SHORT state gets constants back that export like its values *)
+  (forall f ty ts d, In (f, ty, ts, d) output_short_rows ->
+   forall v, has_type ty v = true -> all_fail ts v = true -> export_equiv ty v (default_val d) = true) /\
+  (* 5. Vec / Angle / Matrix operators that produce a new value store into no operand *)
+  (forall r, In r op_census_all -> op_kind r = OpPure -> forall o, In o (op_writes r) -> is_operand o = false) /\
+  (* 6. Keyvalues '+': the left operand is unchanged, the result holds copies of the right operand's children *)
+  (forall (A : Type) (cp : A -> A) single (self other : list A),
+   kv_add_ids cp kv_add_recv_single kv_add_recv_iter kv_add_ret kv_add_single_copied kv_add_iter_copied single self other
+   = (self, (self ++ map cp other)%list)) /\
+  (* 7. collapsing an instance leaves the template observed unchanged *)
+  (forall tgt tmpl h tr h' F',
+   (forall e, In e tr -> (exists s, In (s, snd (fst e)) collapse_writes) /\
+                         forall vo, In vo (snd e) -> exists s, In (s, vo) collapse_enters) ->
+   closed h -> alloc h tgt -> alloc h tmpl -> sep h tmpl [tgt] ->
+   crun tgt tmpl (h, []) tr (h', F') ->
+   forall n, unfold n h' (VRef tmpl) = unfold n h (VRef tmpl)) /\
+  (* 8. every argument copy() hands to a constructor reaches its field without loss (flows through the constructor) *)
+  (forall label c, In (label, c) all_census -> exists fl, lookup label all_flows = Some fl /\ copy_args_lossless c fl = true).
+Proof.
+  intros H1 H2 H3 H4 H5 H6 H7 H8 H9 H10 H11 H12.
+  split; [exact (c09_all_classes_complete_and_independent H1 H2 H3)|].
+  split; [exact (c09_cond_rows_checked cond_rows H5)|].
+  split; [exact (c09_pickle_state_roundtrip _ _ _ H6)|].
+  split; [exact (c09_pickle_short_form_export_equal output_short_rows H7)|].
+  split; [exact (c09_all_ops_pure H8)|].
+  split.
+  { intros A cp single self other.
+    exact (proj1 (c09_kv_add_ids_fresh A cp _ _ _ _ _ H9 H10 single self other)). }
+  split.
+  { intros tgt tmpl h tr h' F'.
+    exact (c09_census_collapse_template_frame collapse_writes collapse_enters tgt tmpl h tr h' F' H11 H12). }
+  exact (c09_all_classes_args_lossless H4).
+Qed.
